@@ -381,6 +381,65 @@ def blocked_search(w, out, thorough):
                         "wrapper %d / scipy %d" % (count, len(mine)))
     except Exception as ex:
         rec(out, "C15:blocked:raises-%s[%s]" % (type(ex).__name__, name), str(ex)[:160])
+    # (ii-c) domain spaces != range spaces, different kinds and dof counts per block (octahedron: P1 6 dofs, DP0 8 dofs):
+    #   A = [[A00, A01], [A10, A11]], domain [P1, DP0], range = dual [DP0, P1]; real and complex.
+    #   Checks: returned functions live in A.domain_spaces, equal f, and A * result reproduces the right-hand side.
+    p1o, dp0o = sp[2], sp[4]
+    for cplx in (False, True):
+        name = "domain!=range-%s" % ("complex" if cplx else "real")
+        j = (1j if cplx else 0)
+        n00 = r.integers(-2, 3, (8, 6)) + j * r.integers(-2, 3, (8, 6))
+        n01 = r.integers(-2, 3, (8, 8)) + 9 * np.eye(8) + j * r.integers(-2, 3, (8, 8))
+        n10 = r.integers(-2, 3, (6, 6)) + 9 * np.eye(6) + j * r.integers(-2, 3, (6, 6))
+        n11 = r.integers(-2, 3, (6, 8)) + j * r.integers(-2, 3, (6, 8))
+        n00, n01, n10, n11 = [np.asarray(x, dtype=complex if cplx else float) for x in (n00, n01, n10, n11)]
+        B3 = api.BlockedOperator(2, 2)
+        B3[0, 0], B3[0, 1] = mk2(p1o, dp0o, dp0o, n00), mk2(dp0o, dp0o, dp0o, n01)
+        B3[1, 0], B3[1, 1] = mk2(p1o, p1o, p1o, n10), mk2(dp0o, p1o, p1o, n11)
+        ref3 = np.block([[n00, n01], [n10, n11]])
+        cs3 = [r.integers(-4, 5, 6) + j * r.integers(-3, 4, 6), r.integers(-4, 5, 8) + j * r.integers(-3, 4, 8)]
+        cs3 = [np.asarray(c, dtype=complex if cplx else float) for c in cs3]
+        fs3 = [api.GridFunction(p1o, coefficients=cs3[0]), api.GridFunction(dp0o, coefficients=cs3[1])]
+        doms = list(B3.domain_spaces)
+
+        def check_solution(tag, sol, tol):
+            dofs = [int(g.space.global_dof_count) for g in sol]
+            if [g.space == s_ for g, s_ in zip(sol, doms)] != [True, True]:
+                rec(out, "C15:%s:returned-functions-not-in-A.domain_spaces[%s]" % (tag, name),
+                    "components live in spaces with %s dofs, the domain spaces have %s" % (
+                        dofs, [int(s_.global_dof_count) for s_ in doms]), {"dofs": dofs})
+                return
+            xv = np.concatenate([np.asarray(g.coefficients) for g in sol])
+            cv = np.concatenate(cs3)
+            if np.linalg.norm(xv - cv) > 10 * np.linalg.cond(ref3) * tol * np.linalg.norm(cv):
+                rec(out, "C15:%s:solution-differs-from-f[%s]" % (tag, name),
+                    "error %.2e" % (np.linalg.norm(xv - cv) / np.linalg.norm(cv)))
+            back = B3 * list(sol)
+            want = c14.blk.projections_from_grid_functions_list(b3, B3.dual_to_range_spaces)
+            got = c14.blk.projections_from_grid_functions_list(back, B3.dual_to_range_spaces)
+            if np.linalg.norm(got - want) > 10 * np.linalg.cond(ref3) * tol * np.linalg.norm(want):
+                rec(out, "C15:%s:A*result-differs-from-rhs[%s]" % (tag, name), "")
+        out["evaluations"] += 1
+        try:
+            b3 = B3 * fs3
+            check_solution("lu-blocked", api.linalg.lu(B3, b3), 1e-12)
+            check_solution("lu-blocked-factors", api.linalg.lu(B3, b3, lu_factor=scipy.linalg.lu_factor(
+                B3.weak_form().to_dense())), 1e-12)
+            for strong in (False, True):
+                # (the matrix is indefinite - dominant off-diagonal blocks -: short restarts stagnate, so restart >= size)
+                for tol, restart in ((1e-6, None), (1e-10, 16)):
+                    out["evaluations"] += 1
+                    x, info, res, count = api.linalg.gmres(B3, b3, tol=tol, restart=restart, use_strong_form=strong,
+                                                           return_residuals=True, return_iteration_count=True, maxiter=400)
+                    tag = "gmres-blocked-%s" % ("strong" if strong else "weak")
+                    if info != 0:
+                        rec(out, "C15:%s:info-nonzero[%s]" % (tag, name), "info=%s" % info)
+                        continue
+                    check_solution(tag, x, tol)
+                    if count != len(res) or count == 0:
+                        rec(out, "C15:%s:count-differs-from-residuals[%s]" % (tag, name), "%d vs %d" % (count, len(res)))
+        except Exception as ex:
+            rec(out, "C15:blocked:raises-%s[%s]" % (type(ex).__name__, name), str(ex)[:160])
     # (iii) duals whose dof counts differ from the ranges' (octahedron: P1 6, DP0 8): the right-hand side A*f is built by
     # grid_function_list_from_projections
     p1, dp0 = sp[2], sp[4]
